@@ -265,6 +265,9 @@ func onPathMarking(c *an.Ctx, det *ssa.Function, rule string) {
 		all := len(outs) > 0
 		for _, o := range outs {
 			sentinel := false
+			if o.End == "return" && idx0 >= 0 && idx0 < len(o.Ret) && o.Ret[idx0].K == an.ANonNil {
+				sentinel = true
+			}
 			if o.End == "return" && idx0 >= 0 && idx0 < len(o.RetVals) {
 				for _, src := range an.Sources(o.RetVals[idx0]) {
 					if u, ok := src.(*ssa.UnOp); ok {
